@@ -204,7 +204,8 @@ static void exec_op(World& w, const std::string& text) {
         bool deep = t[1] == "1";
         l2->copy_from(*lib, deep);
         if (deep)
-            for (uint64_t i = 0; i < l2->cell_array.count; i++) reg_cell(w, l2->cell_array[i]);
+            for (uint64_t i = 0; i < l2->cell_array.count; i++)
+                if (!w.cid.count(l2->cell_array[i])) reg_cell(w, l2->cell_array[i]);
         w.libs.push_back(l2);
         w.lib = l2;
     } else {
